@@ -64,7 +64,8 @@ func (pf *ProposalFundStore) iterate(fn func(proposalID ProposalID, addr keys.Ad
 			amt := balance.NewAmount(0)
 			err := serialize.GetSerializer(serialize.PERSISTENT).Deserialize(value, amt)
 			if err != nil {
-				return true
+				// a record deleted earlier in this block has no value: skip it, do not end the scan
+				return false
 			}
 			arr := strings.Split(string(key), storage.DB_PREFIX)
 			// key example: propFunds_i_proposalID_fundingAddress
